@@ -9,6 +9,7 @@ TECH = {
  "C01": "static analysis: THIR/MIR rules over the autograd engine and all backward closures (slot arity+gating, Boolean evaluation of every attach guard incl. the attach primitives, shared-slot clone provenance, counter-guard control dependence, shape typestate, additive merge)",
  "C02": "static analysis: parameter-dependence taint, linearity type system and accumulate-on-scatter rule over every backward closure; symbolic differentiation of every element-wise forward map compared with its backward slot in an exact rational-function algebra (sibling cross-check, nothing executed); symbolic shape type system for the matrix product's deltas and for single-operand sliced_op calls under all transposition flags; axis (units-of-measure) type system for the convolution index arithmetic and sibling agreement of the window-count formula; reduce-last rule (THIR via rustc_private driver)",
  "C03": "static analysis: shape typestate over the engine's delta/gradient sinks (THIR dataflow)",
+ "C07": "static analysis: forward maps of the point-wise functions, softmax, sum_all and reshape translated from THIR into an exact rational-function algebra and compared with the documented definitions; constructor funnel for reshape's refusal",
  "C08": "static analysis: type walk for interior mutability, unsafe scan, MIR place-context scan for writes/mutable borrows, public-API signature scan, destructor scan",
  "C09": "static analysis: exhaustive Boolean evaluation of every constructor's attach guard, slot gating, flag-writer inventory and stop/restore pairing",
  "C10": "static analysis: engine-state layering (who touches counters/deltas/gradients), take-only delta reads, additive accumulate arms",
@@ -16,6 +17,7 @@ TECH = {
  "C12": "static analysis: field-by-field provenance of Clone, MIR scan for re-seated shared slots, who-may-write rule for the per-node slots shared by clones, children-by-clone at every attachment site, destructor scan, equality field set",
  "C13": "static analysis: dataflow of the value stored over each parameter in Optimizer::update (fresh constructor, same dimensions, tracked) and order/subset agreement of its producer and consumer traversals",
  "C14": "static analysis: provenance of the parameters installed by update, optimizer state inventory (interior mutability), retained-slot / static inventory of Model, layers and optimizers, consumer-count protocol and engine-state layering (no counter residue between passes)",
+ "C15": "static analysis: cost closures, Layer::forward implementations and Model::forward/backward translated from THIR into an exact algebra with uninterpreted function symbols and compared with the documented formulas; structural composition-order check of the layer loop",
  "C16": "static analysis: constructor funnel + dominating assertions, no later write (MIR), equality reads exactly dimensions and values",
  "C17": "static analysis: linearity type system (Z/L/C/N) over backward closures and the engine's delta path; default-seed provenance",
  "C18": "static analysis: ownership-edge inventory over ADT field types, MIR writers of the edge list, closure captures, retained slots, Boolean evaluation of every attach guard (untracked operands record nothing)",
@@ -28,8 +30,6 @@ NA = [
  ("C04", "decides values produced by a runtime-shape index walk (sliced_op); no sound static argument in reach short of a functional-correctness proof; static analysis family does not apply"),
  ("C05", "numeric result of shape derivation plus a triple loop over runtime sizes; not decidable from code shape"),
  ("C06", "numeric result of three composed index permutations over runtime sizes; not decidable from code shape"),
- ("C07", "numeric results of reductions and element maps; its single structural clause (reshape refuses a count mismatch) is decided under C16's constructor funnel"),
- ("C15", "numeric formulas of layers/costs; any static rule would freeze the argument lists of four functions (a brittle proxy)"),
 ]
 
 def implemented(p):
